@@ -36,6 +36,7 @@ def dispatch (line : String) : String :=
   | "data" :: args => handleData args
   | "mem" :: args => handleMem args
   | "h2c" :: args => handleH2c args
+  | "effects" :: args => handleEffects args
   | "c09" :: args => handleC09 args
   | "c06" :: args => handleC06 args
   | "xof" :: args => handleXof args
